@@ -291,17 +291,40 @@ Record ev_fields := {
 (* The same fields read off the event JSON (the tie between the event text and the record, for
    events whose members have the types the Go structs expect; the event ID, a hash for most room
    versions, stays an input).  Membership() fails when content.membership is not a string or
-   when the event has no state key; an absent membership reads as the empty string. *)
+   when the event has no state key; an absent membership reads as the empty string.  Members that
+   occur more than once are read as encoding/json reads them (last occurrence). *)
+(* the reading of a repeated member is the one of encoding/json and hence of every accessor of
+   the stored event: the LAST occurrence *)
+Definition jget_last_str (k : bytes) (j : json) : option bytes :=
+  match jget_last k j with Some v => jstr v | None => None end.
+
+(* a string member as encoding/json decodes it into a string field: every occurrence is visited,
+   a string replaces the value, null leaves it, anything else is a type error for the whole
+   decode; no occurrence leaves the zero value (the empty string) *)
+Fixpoint string_member_acc (k : bytes) (m : list (bytes * json)) (acc : bytes) : option bytes :=
+  match m with
+  | [] => Some acc
+  | (k', v) :: m' =>
+      if bytes_eqb k k' then
+        match v with
+        | JStr s => string_member_acc k m' s
+        | JNull => string_member_acc k m' acc
+        | _ => None
+        end
+      else string_member_acc k m' acc
+  end.
+Definition string_member (k : bytes) (content : json) : option bytes :=
+  match content with
+  | JObj m => string_member_acc k m []
+  | JNull => Some []
+  | _ => None
+  end.
+
 Definition fields_of_event (ev : json) (event_id : bytes) : ev_fields :=
-  let str k := match jget_str k ev with Some s => s | None => [] end in
-  let content := match jget (bs "content") ev with Some c => c | None => JObj [] end in
-  let state_key := match jget (bs "state_key") ev with Some (JStr s) => Some s | _ => None end in
-  let membership :=
-    match jget (bs "membership") content with
-    | Some (JStr m) => Some m
-    | Some JNull | None => Some []
-    | Some _ => None
-    end in
+  let str k := match jget_last_str k ev with Some s => s | None => [] end in
+  let content := match jget_last (bs "content") ev with Some c => c | None => JObj [] end in
+  let state_key := match jget_last (bs "state_key") ev with Some (JStr s) => Some s | _ => None end in
+  let membership := string_member (bs "membership") content in
   {| ef_type := str (bs "type");
      ef_state_key := state_key;
      ef_sender := str (bs "sender");
@@ -309,7 +332,7 @@ Definition fields_of_event (ev : json) (event_id : bytes) : ev_fields :=
      ef_event_id := event_id;
      ef_membership := match state_key with Some _ => membership | None => None end;
      ef_content_ok := match membership with Some _ => true | None => false end;
-     ef_authorised_via := match jget_str (bs "join_authorised_via_users_server") content with
+     ef_authorised_via := match string_member (bs "join_authorised_via_users_server") content with
                           | Some s => s | None => [] end |}.
 
 (* answer of the UserIDForSender function *)
